@@ -3,6 +3,7 @@ import CoapVerif.Lemmas.BlockRecv
 import CoapVerif.Lemmas.BlockCrcv
 import CoapVerif.Lemmas.BlockXmit
 import CoapVerif.Lemmas.BlockRtag
+import CoapVerif.Lemmas.BlockNet
 /-
 C09 — block-wise transfer: the sender's body arrives intact, once, or the transfer fails explicitly.
 
@@ -510,6 +511,70 @@ example :
     let s5 := st s4.1 (some []) b0 2 0
     let s6 := st s5.1 none b1 2 0
     s2.1.length = 2 ∧ s5.2 = SrcvOut.deliver b0 40 ∧ s6.2 = SrcvOut.deliver b1 40 ∧ s6.1 = [] := by decide
+
+
+/-! ## Layer B, composed: libcoap server ∘ lossy network ∘ libcoap client, Block2 (Model/BlockNet.lean)
+
+FULL statement (not proved): `never_wrong_body` / `at_most_once_per_transfer` for the composed system in both
+directions, including everything the real endpoints do.  What is missing in the theorem below: the Block1 direction
+(the server's 2.31 responses are not part of `srvStep`'s output, so the client sender cannot be driven by them);
+responses the APPLICATION builds when a follow-up request finds no lg_xmit, and bodies that fit one message (the model
+generates no response there); the computation of `adlBody`'s parameters on the response path (hypothesis `B2ParOK`,
+satisfied by the request path: `first_block_genuine`); retransmission timers, message ids and tokens (abstracted:
+the schedule picks any datagram ever sent, any number of times, in any order). -/
+
+/-- For EVERY schedule — any loss, duplication, delay, reordering of request and response datagrams, repeated GETs,
+time-outs of the server's lg_xmit and of the client's lg_crcv at any moment, any number of lg_xmit incarnations (each
+with a fresh ETag, possibly with a different block size) — without ANY hypothesis on the datagrams: whatever the
+client's response handler is given is the server's body (single-body mode: exactly, with its exact length) or an
+exact slice of it at the announced offset (per-block mode), and a block response is never passed on as a plain one. -/
+theorem never_wrong_body_block2_composed_partial (P : B2Par) (hP : B2ParOK P) (evs : List B2Event) :
+    ∀ o, o ∈ (evs.foldl (b2Step P) {}).outs →
+      (∀ d l, o = CrcvOut.body d l → P.single = true ∧ d.take l = P.body ∧ l = P.body.length) ∧
+      (∀ off p total nx, o = CrcvOut.block off p total nx →
+        P.single = false ∧ ∃ k szx, k < nBlocks P.body.length szx ∧ off = k * chunkSize szx ∧ p = slice P.body szx k) ∧
+      (∀ off p total, o = CrcvOut.last off p total →
+        P.single = false ∧ ∃ k szx, k < nBlocks P.body.length szx ∧ off = k * chunkSize szx ∧ p = slice P.body szx k) ∧
+      (∀ off p total, o = CrcvOut.randomAccess off p total →
+        ∃ k szx, k < nBlocks P.body.length szx ∧ off = k * chunkSize szx ∧ p = slice P.body szx k) ∧
+      (∀ p, o ≠ CrcvOut.plain p) :=
+  (b2Run_inv P hP evs {} (b2_init_inv P)).outs
+
+/-- a concrete system for the examples: 40-byte body, the server settles on 16-byte blocks -/
+def exPar (single : Bool) : B2Par :=
+  { body := (List.range 40).map (fun i => UInt8.ofNat i),
+    cfg := fun _ => { maxSize := 1152, tokLen := 4, base := 6, d := 11, tokOpts0 := 8, b2 := 0, extra := 6, blk := some 0 },
+    etagOf := fun k => List.replicate k 1, fmt := 42, room := 1000, single := single, cap := 4, junk := 0 }
+
+/-- the hypothesis `B2ParOK` is satisfiable -/
+example (single : Bool) : B2ParOK (exPar single) :=
+  { len := (by show ((List.range 40).map (fun i => UInt8.ofNat i)).length < 2 ^ 32; decide),
+    ms := fun _ => (by show 1152 < 2 ^ 62; decide),
+    tok := fun _ => (by show 8 ≤ 6 + 43; decide),
+    b2 := fun _ _ => (by show ((2 ^ (0 + 4) : Nat) : Int) ≤ adlAvail 1152 8 4; decide),
+    b26 := fun _ => (by show 0 ≤ 6; decide),
+    inj := (by
+      intro a b h
+      have h' : List.replicate a (1 : UInt8) = List.replicate b 1 := h
+      have := congrArg List.length h'
+      simpa using this) }
+
+/-- a schedule with a duplicated response and a retransmitted request: three requests, one delivery (`+kernel`: the
+kernel evaluates the decision procedure directly; no axioms involved) -/
+example :
+    let evs : List B2Event := [.appGet 0, .reqArrives 0, .rspArrives 0, .reqArrives 1, .rspArrives 1, .rspArrives 1,
+      .reqArrives 1, .reqArrives 2, .rspArrives 3]
+    let s := evs.foldl (b2Step (exPar true)) {}
+    s.outs = [.next 1 0, .next 2 0, .skip, .body (exPar true).body 40] ∧ s.cli = none ∧ s.rsps.length = 4 := by
+  decide +kernel
+
+/-- a duplicated FIRST request creates a second lg_xmit with a new ETag: the client restarts and still gets the body -/
+example :
+    let evs : List B2Event := [.appGet 0, .reqArrives 0, .reqArrives 0, .rspArrives 0, .rspArrives 1, .reqArrives 2,
+      .rspArrives 2, .reqArrives 3, .rspArrives 3, .reqArrives 4, .rspArrives 4]
+    let s := evs.foldl (b2Step (exPar true)) {}
+    s.outs = [.next 1 0, .restart 0, .next 1 0, .next 2 0, .body (exPar true).body 40] ∧ s.srvEtag = 3 := by
+  decide +kernel
 
 /-! non-vacuity: concrete instances of the hypotheses -/
 example : setupBlockB 64 6 3 6 5000 = some { num := 96, m := 1, szx := 1, aszx := 1, chunk := 32 } := by decide
